@@ -158,6 +158,7 @@ func instances(sel string, nm int) []Inst {
 	add("LIST", `LIST "" "*" RETURN (STATUS (MESSAGES UNSEEN))`)
 	add("LIST", `LIST (SUBSCRIBED) "" "*"`, "SUBSCRIBE A")
 	add("LSUB", `LSUB "" "*"`)
+	add("LSUB", `LSUB "" "*"`, "SUBSCRIBE A", "SUBSCRIBE B")
 	add("NAMESPACE", "NAMESPACE")
 	add("CAPABILITY", "CAPABILITY")
 	add("ENABLE", "ENABLE IMAP4rev2")
